@@ -343,10 +343,71 @@ def withArgs (args : List String)
     | _, _, _, _, _ => "bad-op"
   | _ => "bad-op"
 
+/-! ### large transforms by digest (op `big`: sizes 2^11 … 2^22)
+
+The input vector is a formula of the line (`seed`, `K`, `mode`), the answer two weighted digests of the WHOLE output of the same
+model functions `FFT` / `FFTInverse` plus four sampled entries (tools/harness/c10_big.go computes the same from the Go output). -/
+
+/-- input stream: `x ← x·A + C mod 2^64`, `h = x >> 16`; `d`: `h·K mod q`; `s`: `h mod 16 = 0 → q−1, 1 → 1, 2 → h·K mod q`, else `0`;
+    `c`: `K`; `1`: `K` at position `pos`, `0` elsewhere  (`A`, `C` are arguments, not literals, for the compiler) -/
+def bigInputLoop (q K : Nat) (mode : String) (pos : Nat) (A C : UInt64) :
+    Nat → Nat → UInt64 → Array Nat → Array Nat × UInt64
+  | 0, _, x, acc => (acc, x)
+  | fuel+1, i, x, acc =>
+    let x' := x * A + C
+    let h := (x' >>> 16).toNat
+    let v :=
+      if mode == "d" then (h * K) % q
+      else if mode == "s" then
+        (if h % 16 == 0 then q - 1 else if h % 16 == 1 then 1 else if h % 16 == 2 then (h * K) % q else 0)
+      else if mode == "c" then K % q
+      else (if i == pos then K % q else 0)
+    bigInputLoop q K mode pos A C fuel (i+1) x' (acc.push v)
+
+/-- `(i, d1, d2) ↦ (i+1, d1 + (i+1)·(o mod M), d2 + ((i+1)² mod M)·(o mod M))  mod M` -/
+def bigDigestStep (M : Nat) (st : Nat × Nat × Nat) (o : Nat) : Nat × Nat × Nat :=
+  let w := (st.1 + 1) % M
+  let o := o % M
+  (st.1 + 1, (st.2.1 + (w * o) % M) % M, (st.2.2 + (((w * w) % M) * o) % M) % M)
+
+def bigSamples (A C : UInt64) (n : Nat) (out : Array Nat) : Nat → UInt64 → List String
+  | 0, _ => []
+  | k+1, x =>
+    let x' := x * A + C
+    toHex (out.getD ((x' >>> 16).toNat % n) 0) :: bigSamples A C n out k x'
+
+/-- `big <kind> <field> <q> <omega> <logn> <dif|dit> <coset> <precomp> <nbTasks> <g> <custom> <mode> <seed> <K>` -/
+def bigOp (kind : String) (args : List String) : String :=
+  match args with
+  | [field, qs, ws, ms, dec, cs, ps, _nb, gs, _custom, mode, seeds, ks] =>
+    match kernelsOf field, parseHex qs, parseHex ws, parseHex ms, parseHex gs, parseHex seeds, parseHex ks with
+    | some kers, some q, some w, some m, some g, some seed, some K =>
+      if (dec != "dif" && dec != "dit") || q < 2 || m > 24 || seed ≥ 2^64 || !(["d", "s", "c", "1"].contains mode)
+          || !(["fft", "inv", "roundtrip", "rtinv"].contains kind) then "bad-op" else
+      let n := 2^m
+      let A : UInt64 := 6364136223846793005
+      let C : UInt64 := 1442695040888963407
+      let (inp, x) := bigInputLoop q K mode (seed % n) A C n 0 (UInt64.ofNat seed) (Array.mkEmpty n)
+      let v : List (ZM q) := inp.toList.map (fun a => ⟨a⟩)
+      let d := mkDomain q m w g (ps == "1")
+      let dif := dec == "dif"
+      let coset := cs == "1"
+      let r :=
+        if kind == "fft" then FFT kers d dif coset v
+        else if kind == "inv" then FFTInverse kers d dif coset v
+        else if kind == "roundtrip" then FFTInverse kers d (!dif) coset (FFT kers d dif coset v)
+        else FFT kers d (!dif) coset (FFTInverse kers d dif coset v)
+      let out := (r.map (·.val)).toArray
+      let dg := out.foldl (bigDigestStep (2^61 - 1)) (0, 0, 0)
+      toHex dg.2.1 ++ " " ++ toHex dg.2.2 ++ " " ++ ",".intercalate (bigSamples A C n out 4 x)
+    | _, _, _, _, _, _, _ => "bad-op"
+  | _ => "bad-op"
+
 def listBEq {q : Nat} (a b : List (ZM q)) : Bool := a.map (·.val) == b.map (·.val)
 
 def handle (args : List String) : String :=
   match args with
+  | "big" :: kind :: rest => bigOp kind rest
   | "fft" :: rest => withArgs rest (fun _ kers d dif coset v =>
       let r := FFT kers d dif coset v
       -- small sizes: cross-check the model against the DFT specification itself
